@@ -231,6 +231,8 @@ def _prune_unbound(v):
     return v
 
 
+import os as _os
+DEBUG_DECISIONS = {} if _os.environ.get("VC_DEBUG_DECISIONS") else None
 _LUT_CACHE = {}
 _TRANSCENDENTAL = {"cos", "sin", "arccos", "exp", "sqrt", "pow", "atan2", "log10"}
 
@@ -287,6 +289,8 @@ class Engine:
         self.real_boxes = {}
         self.merge_marks = []     # (call depth, loop depth) at which each speculative region started
         self.loop_depth = 0
+        self.func_stack = []
+        self.cur_line = 0
 
     # -------------------------------------------------------------- path exploration
     def explore(self, run_once, max_paths=5000):
@@ -305,6 +309,7 @@ class Engine:
             self.merge_marks = []
             self.loop_depth = 0
             self.call_depth = 0
+            self.func_stack = []
             self.heap = []
             self.frames = []
             self.check_results = []
@@ -369,6 +374,9 @@ class Engine:
             return False
         if self.merge_depth:
             raise MergeAbort()
+        if DEBUG_DECISIONS is not None:
+            key = "%s:%d" % (self.func_stack[-1] if self.func_stack else "?", self.cur_line)
+            DEBUG_DECISIONS[key] = DEBUG_DECISIONS.get(key, 0) + 1
         i = len(self.trace)
         if i < len(self.sched):
             d = self.sched[i]
@@ -1353,16 +1361,24 @@ class Engine:
         if isinstance(key, (SBool,)):
             key = self.to_int(key)
         if isinstance(key, SInt):
+            cands = []
             for k in d:
-                if isinstance(k, bool) or not isinstance(k, int):
+                if not isinstance(k, int):
                     continue
-                if key.lo is not None and k < key.lo or key.hi is not None and k > key.hi:
+                kk = int(k)
+                if key.lo is not None and kk < key.lo or key.hi is not None and kk > key.hi:
                     continue
-                if self.decide(key.term == k):
-                    return d[k]
-            if raise_on_missing:
-                raise PyExc("KeyError", "symbolic key")
-            return default
+                cands.append((kk, d[k]))
+            # one decision "is the key present at all", then a merged look-up (no fork per key)
+            missing = c_and(*[key.term != kk for kk, _ in cands]) if cands else True
+            if self.decide(missing):
+                if raise_on_missing:
+                    raise PyExc("KeyError", "symbolic key")
+                return default
+            res = cands[-1][1]
+            for kk, v in reversed(cands[:-1]):
+                res = self.vmerge(key.term == kk, v, res)
+            return res
         if isinstance(key, Sym):
             if isinstance(key, (SBin, SHex, SStr, SChr)):
                 for k in d:
@@ -1484,7 +1500,8 @@ class Engine:
         if sym is None:
             raise Unsupported("operator %s" % type(op).__name__)
         a = self.force(a)
-        b = self.force(b)
+        if not (sym == "%" and self.is_strlike(a)):
+            b = self.force(b)        # (a value handed to %-formatting is not inspected: no fork)
         from . import builtins_model as BM
         return BM.binop(self, sym, a, b)
 
@@ -1801,6 +1818,7 @@ class Engine:
         env = Env(fn.env, fn.locals_names)
         self.bind_args(fn, env, args, kwargs)
         self.frames.append(env)
+        self.func_stack.append(fn.qualname)
         self.call_depth += 1
         saved_loop = self.loop_depth
         self.loop_depth = 0
@@ -1815,6 +1833,7 @@ class Engine:
         finally:
             self.call_depth -= 1
             self.loop_depth = saved_loop
+            self.func_stack.pop()
             self.frames.pop()
 
     def bind_args(self, fn, env, args, kwargs):
@@ -1880,6 +1899,7 @@ class Engine:
             self.exec_stmt(s, env)
 
     def exec_stmt(self, node, env):
+        self.cur_line = getattr(node, "lineno", 0)
         m = getattr(self, "s_" + type(node).__name__, None)
         if m is None:
             raise Unsupported("statement %s" % type(node).__name__)
